@@ -77,7 +77,7 @@ static void ensure(uint8_t **buf, size_t *alloc, size_t need)
 	if (need <= *alloc) return;
 	size_t n = *alloc ? *alloc : 65536;
 	while (n < need) n *= 2;
-	*buf = realloc(*buf, n);
+	*buf = persistent_realloc(*buf, n);
 	if (!*buf) die("oom");
 	*alloc = n;
 }
@@ -86,7 +86,7 @@ static void seg_push(Pipe *p, size_t end, int64_t at)
 {
 	if (p->nseg >= p->seg_alloc) {
 		p->seg_alloc = p->seg_alloc ? p->seg_alloc * 2 : 256;
-		p->segs = realloc(p->segs, sizeof(Seg) * (size_t)p->seg_alloc);
+		p->segs = persistent_realloc(p->segs, sizeof(Seg) * (size_t)p->seg_alloc);
 		if (!p->segs) die("oom");
 	}
 	if (at < p->last_at) at = p->last_at;
